@@ -32,6 +32,9 @@ var (
 type xmpReader struct {
 	r *bufio.Reader
 	a bool
+	// eof is set once the source has reported its end: what is left of the packet lies in the buffer then, and the
+	// source is not asked again (every look-ahead near the end of a packet would otherwise cost one more read)
+	eof bool
 }
 
 func newXMPReader(r io.Reader) xmpReader {
@@ -80,8 +83,23 @@ func (br *xmpReader) hasAttribute() bool {
 	return br.a
 }
 
-func (br *xmpReader) Peek(n int) (buf []byte, err error) {
+// peek is the bufio.Reader's Peek, except that a source that has reported its end is not read again.
+func (br *xmpReader) peek(n int) (buf []byte, err error) {
+	if br.eof && n > br.r.Buffered() {
+		buf, _ = br.r.Peek(br.r.Buffered())
+		if n > br.r.Size() {
+			return buf, bufio.ErrBufferFull
+		}
+		return buf, io.EOF
+	}
 	if buf, err = br.r.Peek(n); err == io.EOF {
+		br.eof = true
+	}
+	return
+}
+
+func (br *xmpReader) Peek(n int) (buf []byte, err error) {
+	if buf, err = br.peek(n); err == io.EOF {
 		if len(buf) > 4 {
 			return buf, nil
 		}
@@ -235,7 +253,7 @@ func (br *xmpReader) readTagHeader(parent Tag) (tag Tag, err error) {
 					}
 					if n > len(buf) {
 						// (a Peek invalidates the slice of the previous one; at the end of the packet it returns what is left)
-						buf, _ = br.r.Peek(n)
+						buf, _ = br.peek(n)
 					}
 				}
 				if i+1 >= len(buf) {
